@@ -307,10 +307,12 @@ class BaseState(ABC):
 
         if isinstance(self.index, int):
             assert isinstance(self.envelope, Envelope)
-            return self.envelope.measure_POVM(operators, self)
+            return self.envelope.measure_POVM(operators, self, destructive=destructive)
         if isinstance(self.index, list) or isinstance(self.index, tuple):
             assert isinstance(self.composite_envelope, CompositeEnvelope)
-            return self.composite_envelope.measure_POVM(operators, self)
+            return self.composite_envelope.measure_POVM(
+                operators, self, destructive=destructive
+            )
 
         assert isinstance(self.expansion_level, ExpansionLevel)
         while self.expansion_level < ExpansionLevel.Matrix:
@@ -360,7 +362,9 @@ class BaseState(ABC):
                     if isinstance(self, Polarization)
                     else self.envelope.polarization
                 )
-                out = state.measure()
+                out = state.measure(
+                    separate_measurement=True, destructive=destructive
+                )
                 for k, v in out.items():
                     result[1][k] = v
 
